@@ -290,6 +290,9 @@ class Evaluator:
             return vh
         if name == "v_callable":
             return callable
+        if name.startswith("oracle_") or name == "v_hook":
+            # a user callback is a pure function of its arguments (DESIGN §8): its value is what the real callable returns
+            return lambda cb, *args: cb(*args)
         if name == "py_id":
             return lambda o: id(o)
         if name.startswith("upk<"):
@@ -488,6 +491,11 @@ class Evaluator:
 
             return {"Pre": pre, "PreL": prel, "Post": post, "PostL": postl}[kind]
         return None
+
+    def value(self, term):
+        if isinstance(term, (int, bool)):
+            return term
+        return self.compile(term)([])
 
     def holds(self, formula) -> bool:
         if isinstance(formula, bool):
